@@ -27,6 +27,10 @@ type Workload struct {
 	Accepted map[string]int
 	Rejected map[string]int
 
+	// PillarNames: names used by Delegate calls (default: the mock genesis pillars).
+	PillarNames []string
+	// SporkKey: designated spork key (default g.Spork).
+	SporkKey *wallet.KeyPair
 	// Sporks: allow CreateSpork calls by the designated key.
 	Sporks bool
 	// ContractWeight: percentage of actions that are contract calls (default 35).
@@ -252,6 +256,9 @@ func (w *Workload) contractCall() {
 				definition.ABIPillars.PackMethodPanic(definition.UndelegateMethodName))
 		} else {
 			names := []string{g.Pillar1Name, g.Pillar2Name, g.Pillar3Name, "no-such-pillar"}
+			if len(w.PillarNames) > 0 {
+				names = append(append([]string{}, w.PillarNames...), "no-such-pillar")
+			}
 			w.call("pillar.Delegate", u, types.PillarContract, types.ZnnTokenStandard, big.NewInt(0),
 				definition.ABIPillars.PackMethodPanic(definition.DelegateMethodName, names[w.R.Intn(len(names))]))
 		}
@@ -359,7 +366,11 @@ func (w *Workload) contractCall() {
 			w.transfer()
 			return
 		}
-		w.call("spork.CreateSpork", g.Spork, types.SporkContract, types.ZnnTokenStandard, big.NewInt(0),
+		sk := g.Spork
+		if w.SporkKey != nil {
+			sk = w.SporkKey
+		}
+		w.call("spork.CreateSpork", sk, types.SporkContract, types.ZnnTokenStandard, big.NewInt(0),
 			definition.ABISpork.PackMethodPanic(definition.SporkCreateMethodName, fmt.Sprintf("spork-%d", w.R.Intn(100000)), "created by the workload"))
 	default: // valid selector, value attached where none is expected → failed call with refund, or refusal
 		w.call("pillar.Delegate(with value)", u, types.PillarContract, types.ZnnTokenStandard, big.NewInt(int64(1+w.R.Intn(3))*z),
